@@ -127,4 +127,14 @@ TEXT.update({
         note="Trusted: Lean kernel + 3 standard axioms; timers as fair environment events (no durations); finite model, inductive steps by kernel evaluation over the state table; tie = T1 facts + gate scripts of this run.",
         technique="Lean 4 proof (inductive invariant + ranking-function leadsTo under weak fairness) + regenerated configuration facts + forced-schedule differential"),
 })
+TEXT.update({
+    "C12": dict(
+        text="Lean theorems: after Close the Buffer model rejects Put/NewConsumer/Get, Commit with nothing pending errors, contents stay, consumers are closed; the Channel model "
+             "rejects Get/Commit and a second Close; and goroutine exit: along every run that is weakly fair for the goroutines' own steps (timer expiry NOT assumed) a closed "
+             "Buffer's cleanup goroutine, its WaitCond watcher and the cooldown timer goroutine all exit (ranking function); the watcher of any WaitCond call exits after the "
+             "call returned and its caller unlocked; Workers/Worker/LinearAttempt/ConflatedContext goroutine exit comes from C14/C17/C20/C16. Without the context select in the timer "
+             "goroutine the model has a stuck witness (finding F3, fixed). Tied by T1 facts on every Close path and by shutdown programs with goroutine dumps.",
+        note="Trusted: Lean kernel + 3 standard axioms; fairness; sync.Once/close-channel semantics modelled; the goroutine dump (500 ms grace) is the correspondence observation, not the proof.",
+        technique="Lean 4 proof (model lemmas + ranking-function leadsTo for goroutine exit) + regenerated Close-path facts + shutdown differential with goroutine dumps"),
+})
 NOT_YET = {}
